@@ -102,7 +102,9 @@ def zero_evaluation_failure(searches, x_scale=1.0):
     # only the provable cases: a component moving off the box from the bound it sits on (maximum
     # feasible step exactly zero) or a direction at rounding level; a search that refuses a
     # direction for another reason (not a descent direction) is NOT excused
-    return any(t[2] is None and ((t[0] == t[1] and len(t) > 5 and t[5]) or t[3] <= tiny) for t in searches)
+    # (third provable case: the largest feasible step is one rounding below the initial unit step, so
+    # the search refuses it at once - `near_cap`, computed by the interceptor from x, d and the box)
+    return any(t[2] is None and ((t[0] == t[1] and len(t) > 5 and (t[5] or (len(t) > 6 and t[6]))) or t[3] <= tiny) for t in searches)
 
 
 def raise_witness(act):
